@@ -5,15 +5,17 @@ P = sys.argv[1]
 extra = [a for a in sys.argv[2:] if not a.startswith("--")]
 ROUND2 = "--r2" in sys.argv   # round 2: /tmp/wt/R2<Cxx>_out, stored as <Cxx>-c / <Cxx>-d
 ROUND3 = "--r3" in sys.argv   # round 3: /tmp/wt/R3<Cxx>_out, stored as <Cxx>-e / <Cxx>-f
+ROUND4 = "--r4" in sys.argv   # round 4: /tmp/wt/R4<Cxx>_out, stored as <Cxx>-g / <Cxx>-h
+ROUND5 = "--r5" in sys.argv   # round 5: /tmp/wt/R5<Cxx>_out, stored as <Cxx>-i / <Cxx>-j
 VERIF = os.path.dirname(os.path.dirname(os.path.abspath(__file__)))
-src = f"/tmp/wt/{'R3' if ROUND3 else 'R2' if ROUND2 else ''}{P}_out"
+src = f"/tmp/wt/{'R5' if ROUND5 else 'R4' if ROUND4 else 'R3' if ROUND3 else 'R2' if ROUND2 else ''}{P}_out"
 for suffix in ("", "2"):
     patch = f"{src}/patch{suffix}.diff"
     demo = f"{src}/demo{suffix}.py"
     meta = f"{src}/meta{suffix}.json"
     if not (os.path.exists(patch) and os.path.exists(demo)):
         continue
-    name = f"{P}-{('e' if suffix == '' else 'f') if ROUND3 else ('c' if suffix == '' else 'd') if ROUND2 else ('a' if suffix == '' else 'b')}"
+    name = f"{P}-{('i' if suffix == '' else 'j') if ROUND5 else ('g' if suffix == '' else 'h') if ROUND4 else ('e' if suffix == '' else 'f') if ROUND3 else ('c' if suffix == '' else 'd') if ROUND2 else ('a' if suffix == '' else 'b')}"
     out = subprocess.run([f"{VERIF}/tools/try_seeded.py", patch, demo, P] + extra, stdout=subprocess.PIPE, stderr=subprocess.STDOUT, text=True).stdout
     try:
         res = json.loads(out[out.index("{"):])
